@@ -238,6 +238,10 @@ func checkC06(c *Check) {
 	c.Expect("6/list-delivered-whole", 2)
 	importObs(c, "C17", "C17.1/fork-lock", "7/born-cloexec", func(o Obligation) bool { return strings.Contains(o.Key, "cloexec") })
 	c.Expect("7/born-cloexec", 3)
+	// the request acted upon is this request (FdExec, FdCgroup and the descriptor-related flags are not inherited
+	// from the previous message), and descriptor numbers are closed exactly once, by their owner
+	checkFreshDecode(c, "8/request-is-fresh")
+	checkWrapperOwnership(c, "9/wrapper-ownership")
 }
 
 func isSyncChannelDirect(v ssa.Value) bool {
@@ -522,6 +526,78 @@ func checkCloexecSites(c *Check, r *e1Result) {
 				}
 				c.Cond(okAll, "4/cloexec", "container."+fn.Name()+":every-entry", p.Pos(fn.Pos()), "every descriptor of the container init is marked close-on-exec", "not every descriptor of the container init is marked close-on-exec (some are skipped): they stay open in every program run in the container")
 				n++
+				// … and the loop runs over the whole listing: the element looked at is an element of what the
+				// directory read returned, indexed from 0 up to its length (no sub-slice, no shortened bound)
+				var listing ssa.Value
+				for _, c2 := range callInstrs(fn) {
+					if nm, _ := calleeOf(c2); nm == "os.ReadDir" || nm == "(os.File).ReadDir" || nm == "(os.File).Readdirnames" || nm == "(os.File).Readdir" {
+						if call, ok := c2.(*ssa.Call); ok {
+							for _, r := range *call.Referrers() {
+								if ex, ok := r.(*ssa.Extract); ok && ex.Index == 0 {
+									listing = ex
+								}
+							}
+						}
+					}
+				}
+				whole, why := listing != nil, "the directory listing was not found"
+				if listing != nil {
+					nIdx := 0
+					for _, r := range *listing.Referrers() {
+						switch x := r.(type) {
+						case *ssa.Slice:
+							whole, why = false, "the loop runs over a sub-slice of the listing ("+describe(x)+")"
+						case *ssa.IndexAddr:
+							nIdx++
+							// index = rangeindex φ (+1) starting at 0, bound = len(listing)
+							okIdx := false
+							if bo, ok := x.Index.(*ssa.BinOp); ok && bo.Op == token.ADD {
+								if ph, ok := bo.X.(*ssa.Phi); ok {
+									if one, ok := constInt(bo.Y); ok && one == 1 {
+										for _, e := range ph.Edges {
+											if v, ok := constInt(e); ok && v == -1 {
+												okIdx = true
+											}
+										}
+									}
+								}
+								for _, r2 := range *bo.Referrers() {
+									if cmp, ok := r2.(*ssa.BinOp); ok && cmp.Op == token.LSS && cmp.X == ssa.Value(bo) {
+										if describe(cmp.Y) != "builtin:len("+describe(listing)+")" {
+											okIdx = false
+											why = "the loop bound is " + describe(cmp.Y) + ", not the length of the listing"
+										}
+									}
+								}
+							} else if ph, ok := x.Index.(*ssa.Phi); ok {
+								for _, e := range ph.Edges {
+									if v, ok := constInt(e); ok && v == 0 {
+										okIdx = true
+									}
+								}
+								for _, r2 := range *ph.Referrers() {
+									if cmp, ok := r2.(*ssa.BinOp); ok && cmp.Op == token.LSS && cmp.X == ssa.Value(ph) {
+										if describe(cmp.Y) != "builtin:len("+describe(listing)+")" {
+											okIdx = false
+											why = "the loop bound is " + describe(cmp.Y) + ", not the length of the listing"
+										}
+									}
+								}
+							}
+							if !okIdx {
+								whole = false
+								if why == "the directory listing was not found" {
+									why = "the listing is not indexed from its first to its last entry"
+								}
+							}
+						}
+					}
+					if nIdx == 0 && whole {
+						whole, why = false, "no element of the listing is looked at"
+					}
+				}
+				c.Cond(whole, "4/cloexec", "container."+fn.Name()+":whole-listing", p.Pos(fn.Pos()), "the sweep visits every entry of the descriptor listing", "the close-on-exec sweep of the container init does not visit every entry: "+why+" — an inherited descriptor (a host directory, a socket) stays open in every program run in the container")
+				n++
 			}
 			if strings.HasSuffix(callee.Name(), "serve") || reachesCall(callee, 1, func(c2 ssa.CallInstruction) bool {
 				_, c3 := calleeOf(c2)
@@ -562,7 +638,7 @@ func checkCloexecSites(c *Check, r *e1Result) {
 		c.Cond(ok, "4/cloexec", "container.Open:received-fds", p.Pos(op.Pos()), "each received descriptor is marked close-on-exec before it is wrapped", "a received descriptor is wrapped without being marked close-on-exec")
 		n++
 	}
-	c.Expect("4/cloexec", 7)
+	c.Expect("4/cloexec", 8)
 	_ = n
 }
 
